@@ -60,4 +60,24 @@ example : Doc (norm Fmt.exTree) (format Fmt.exTree) := renders_format _ Fmt.exTr
 example : parseRunes (format Fmt.exTree) = ⟨norm Fmt.exTree, none⟩ :=
   C06 _ _ (renders_format _ Fmt.exTree_wf)
 
+/-! ## corollaries about layouts -/
+
+/-- **Layout independence**: two admissible layouts of the same structure — whatever their indentation, line ends, trailing
+    commas, parenthesisation — parse to the same result. -/
+theorem C06_layout_independent (t : Tree) (a b : List Rune) (ha : Doc t a) (hb : Doc t b) : parseRunes a = parseRunes b := by
+  rw [C06 t a ha, C06 t b hb]
+
+/-- **No ambiguity**: a text is an admissible layout of at most one structure (the layout relation never lets two different
+    trees be written as the same text; otherwise "the structure written" would not be well defined). -/
+theorem C06_unambiguous (t₁ t₂ : Tree) (txt : List Rune) (h₁ : Doc t₁ txt) (h₂ : Doc t₂ txt) : t₁ = t₂ := by
+  have h := (C06 t₁ txt h₁).symm.trans (C06 t₂ txt h₂)
+  exact congrArg ParseResult.tree h
+
+/-- **One canonical text**: formatting any admissible layout of `t` prints what formatting `t` prints. -/
+theorem C06_canonical (t : Tree) (txt : List Rune) (h : Doc t txt) : format (parseRunes txt).tree = format t := by
+  rw [C06 t txt h]
+
+example : ∀ txt, Doc (norm Fmt.exTree) txt → parseRunes txt = parseRunes (format Fmt.exTree) :=
+  fun txt h => C06_layout_independent _ txt _ h (renders_format _ Fmt.exTree_wf)
+
 end Spok.Props.C06
